@@ -24,6 +24,7 @@ C11-partial-path-ignore-prunes-candidates).
 -/
 import GrcovModel.Lemmas.Rewrite
 import GrcovModel.Props.C11Partial
+import GrcovModel.Props.C11Symlink
 import GrcovModel.Props.C11Main
 namespace Grcov.Props.C11
 open Grcov Grcov.UPath Grcov.Glob Grcov.Rewrite
